@@ -52,11 +52,11 @@ PARTIAL = [
     'quadric along the ray is proved, the root selection (hit between the two surfaces) is a hypothesis checked numerically',
     'homogeneity / mirror covariance of the whole trace are proved for planes and conics (exact reals and extended reals for '
     'the mirrors, exact reals for scaling); aspheres are covered by correspondence only',
-    'scale_system: proved for every prescription that ONE set_thickness call sets the addressed gap, keeps all other gaps and '
-    're-bases surface 1 to z = 0, and that the radius / aperture / EPD columns of the model equal the scaled prescription; '
-    'that the LOOP of such calls yields s times every vertex position is checked by executing the model against optiland '
-    '(finite and infinite objects), not proved; the decentre columns are proved to be returned unchanged, so the operation '
-    'meets the specification only for zero decentres (finding scale-system-decentre, refutation in coq/Findings/F_C07.v)',
+    'scale_system: proved for EVERY prescription with real vertex positions (any number of surfaces, decentres included) '
+    'that the model of the operation equals "every length times s" (scale_system_is_scaling); for an object at infinity the '
+    'exact-real instance cannot express the isinf test, so the theorem is stated on the loop entered after the skipped object '
+    'gap (scale_pos_infinite_object: object entry untouched, every other vertex times s) and the test itself is covered by '
+    'executing the model (binary64, -inf object) against optiland on every run',
     'launch (RayGenerator): mirror covariance and homogeneity of the generated ray are checked on optiland (launch record of '
     'every metamorphic pair) and the kernels are translated (c07_origins_inf, rg_generate), but no theorem is stated over them',
     'first/third-order homogeneity (f2, Seidel sums scale by s): checked on optiland and on the paraxial model, not proved',
@@ -177,6 +177,17 @@ def _finite(rec):
     return all(math.isfinite(v) for v in rec[:6])
 
 
+def _on_near_cap(rec, surf, ang):
+    """the hit point is seen from the centre of curvature within 90 deg - |tilt| - margin of the vertex direction"""
+    if not _finite(rec) or surf['shape'][0] != 'std':
+        return not _finite(rec)      # a ray that already failed is compared as it is (NaN pattern)
+    R = surf['shape'][1]
+    cz = surf['z'] + R
+    ux, uy, uz = (rec[0] - surf['x']) / abs(R), (rec[1] - surf['y']) / abs(R), (rec[2] - cz) / abs(R)
+    cos_t = -uz * (1 if R > 0 else -1)
+    return cos_t > math.sin(abs(ang)) + 0.1
+
+
 def _rel_opd(recs):
     """records with the path measured from the first real surface (the launch plane of an object at infinity is a
     convention that legitimately moves with the vertex list)"""
@@ -264,7 +275,9 @@ def gen_cases(ctx, nl, rays_per, seed_mul=11):
                         skip('dummy')
                     else:
                         recs = r3[1][:gap + 2] + r3[1][gap + 3:]
-                        d = max(L.rec_diff(x, y, scale=100) for x, y in zip(_rel_opd(recs0), _rel_opd(recs)))
+                        # from the first real surface on: the launch PLANE of an infinite object is placed from the vertex
+                        # list (in front of every vertex), so the same ray may be recorded at another point of its line
+                        d = max(L.rec_diff(x, y, scale=100) for x, y in zip(_rel_opd(recs0)[1:], _rel_opd(recs)[1:]))
                         zd = float(o3.surface_group.surfaces[gap + 2].geometry.cs.z)
                         nd = surfs0[gap]['n2']
                         add('dummy', params={'gap': gap, 'frac': frac, 'zd': zd, 'n': nd,
@@ -283,7 +296,11 @@ def gen_cases(ctx, nl, rays_per, seed_mul=11):
                     ra, rb = L.trace_from(oa, recs0[0], w), L.trace_from(ob, recs0[0], w)
                 except Exception:   # noqa
                     ra = rb = ('err',)
-                if ra[0] == 'ok' and rb[0] == 'ok':
+                if ra[0] == 'ok' and rb[0] == 'ok' and not _on_near_cap(ra[1][idx], surfs0[idx], ang):
+                    # the hit is not on the cap of the sphere that is the sag sheet in BOTH frames (beyond or near the
+                    # hemisphere edge): the library's normal is that of the sag sheet only (C02, sheet hypothesis)
+                    skip('tilt')
+                elif ra[0] == 'ok' and rb[0] == 'ok':
                     d = max(L.rec_diff(x, y, scale=100) for x, y in zip(ra[1], rb[1]))
                     add('tilt', params={'idx': idx, 'angle': ang, 'axis': axis, 'R': spec['surfaces'][idx]['radius']},
                         timpl=[recs0[0]] + rb[1], direct=d, tol=1e-9,
@@ -406,16 +423,25 @@ def scale_system_cases(ctx, nl, seed_mul=17, decentre=None):
     warnings.simplefilter('ignore')
     rng = random.Random(ctx.seed * seed_mul + 3)
     out = []
+    # regression cases, present for every seed: the decentred singlet of the repaired finding scale-system-decentre
+    # (infinite object) and the same lens with a finite object distance and an apertured second surface
+    fin = copy.deepcopy(REPLAY_SPEC)
+    fin['object_thickness'] = 250.0
+    fin['surfaces'][1]['aperture'] = [4.0, 0.5]
+    fixed = [(REPLAY_SPEC, 2.0, True), (fin, 0.5, True)] if decentre is None else []
     for li in range(nl):
-        spec = L.sym_spec(rng, angle_only=True)
-        if spec['aperture'][0] != 'EPD' and li % 2:
-            spec['aperture'] = ['EPD', rng.uniform(3, 9)]
-        dec = (li % 3 == 0) if decentre is None else decentre
-        if dec:
-            for s_ in spec['surfaces']:
-                if rng.random() < 0.5:
-                    s_['dx'], s_['dy'] = rng.uniform(-0.3, 0.3), rng.uniform(-0.3, 0.3)
-        s = 2.0 ** rng.randint(-6, 6) if rng.random() < 0.5 else 10 ** rng.uniform(-2, 2)
+        if li < len(fixed):
+            spec, s, dec = copy.deepcopy(fixed[li][0]), fixed[li][1], fixed[li][2]
+        else:
+            spec = L.sym_spec(rng, angle_only=True)
+            if spec['aperture'][0] != 'EPD' and li % 2:
+                spec['aperture'] = ['EPD', rng.uniform(3, 9)]
+            dec = (li % 3 == 0) if decentre is None else decentre
+            if dec:
+                for s_ in spec['surfaces']:
+                    if rng.random() < 0.5:
+                        s_['dx'], s_['dy'] = rng.uniform(-0.3, 0.3), rng.uniform(-0.3, 0.3)
+            s = 2.0 ** rng.randint(-6, 6) if rng.random() < 0.5 else 10 ** rng.uniform(-2, 2)
         try:
             o = L.build(spec)
             p0 = L.prescription(o)
@@ -631,7 +657,9 @@ def search(ctx, broken, disagreements):
 
 
 # ----------------------------------------------------------------------------------------------
-# 5. known finding: scale_system leaves decentres unscaled
+# 5. findings.  scale-system-decentre (decentres left unscaled) was repaired in /repo (4400cbe) and is listed as
+#    fixed: it is no longer consulted, so the same discrepancy is a plain VIOLATION again (regression alarm).
+#    The matcher is kept for the case the finding is re-opened.
 # ----------------------------------------------------------------------------------------------
 def _only_decentre(w):
     """True iff the witness is a scale_system discrepancy that disappears when (and only when) the decentres of the
